@@ -5,8 +5,9 @@
    Codes: 0 ok; 1 model <> implementation, the observed behaviour keeps the laws inside the guard;
    2 model <> implementation and the observed behaviour breaks a law inside the guard (failing input);
    3 self-check: model = implementation but a law is broken inside the guard (guard or proof wrong). *)
-From Coq Require Import ZArith NArith List Bool String.
+From Coq Require Import ZArith NArith List Bool String QArith.
 From C16 Require Import Model Spec Types.
+Close Scope Q_scope.
 Import ListNotations.
 Open Scope list_scope.
 
@@ -36,12 +37,32 @@ Definition model_pobs (a b : ref) : pobs := (b2n (eq_m a b), b2n (eql_m a b), b2
 Definition pobs_eqb (x y : pobs) : bool :=
   let '(a, b, c, d) := x in let '(a', b', c', d') := y in N.eqb a a' && N.eqb b b' && N.eqb c c' && N.eqb d d'.
 Definition model_matrix (rs : list ref) : list (list pobs) := map (fun a => map (model_pobs a) rs) rs.
+(* the model's code against the observed one: exact when the whole text is modelled; when the code contains
+   numbers whose text is strconv's float formatting (h_nums), the observed code is the modelled sum plus a
+   function of those canonical values: it is at least the sum, and two references of the case with the same
+   model code must have been given the same code *)
+Definition Q_eqb (a b : Q) : bool := Z.eqb (Qnum a) (Qnum b) && Pos.eqb (Qden a) (Qden b).
+Definition hcode_eqb (a b : hcode) : bool := N.eqb (h_sum a) (h_sum b) && all2 Q_eqb (h_nums a) (h_nums b).
 Definition hash_agrees (r : ref) (h : Z) : bool :=
-  match sxhash_m (r_obj r) with Some m => Z.eqb (Z.of_N m) h | None => true end.
+  match sxhash_m (r_obj r) with
+  | Some c => match h_nums c with
+              | [] => Z.eqb (Z.of_N (h_sum c)) h
+              | _ => Z.leb (Z.of_N (h_sum c)) h
+              end
+  | None => true
+  end.
+Definition hash_consistent (rs : list ref) (hs : list Z) : bool :=
+  let l := combine rs hs in
+  forallb (fun p => forallb (fun q =>
+    match sxhash_m (r_obj (fst p)), sxhash_m (r_obj (fst q)) with
+    | Some c1, Some c2 => negb (hcode_eqb c1 c2) || Z.eqb (snd p) (snd q)
+    | _, _ => true
+    end) l) l.
 Definition eq_agree (c : eq_case) : bool :=
   all2 (all2 pobs_eqb) (model_matrix (ec_refs c)) (ec_obs c) &&
   Nat.eqb (List.length (ec_hash c)) (List.length (ec_refs c)) &&
-  forallb (fun p => hash_agrees (fst p) (snd p)) (combine (ec_refs c) (ec_hash c)).
+  forallb (fun p => hash_agrees (fst p) (snd p)) (combine (ec_refs c) (ec_hash c)) &&
+  hash_consistent (ec_refs c) (ec_hash c).
 
 (* the laws, judged on the OBSERVED matrix *)
 Definition pget (m : list (list pobs)) (i j : nat) : pobs := nth j (nth i m []) (2, 2, 2, 2)%N.
@@ -87,7 +108,7 @@ Section Laws.
               [0; 1; 2; 3]%nat) idx) idx) idx.
   Definition law_hash : bool :=
     forallb (fun i => forallb (fun j =>
-      negb (hash_dom (ob i) && hash_dom (ob j) && wf (ob i) && wf (ob j)) ||
+      negb (hash_dom2 (ob i) (ob j) && wf (ob i) && wf (ob j)) ||
       negb (N.eqb (sel 2 (pget m i j)) 1) ||
       (Z.eqb (nth i hs (-1)%Z) (nth j hs (-2)%Z) && Z.leb 0 (nth i hs (-1)%Z))) idx) idx.
   Definition refs_consistent : bool := forallb (fun a => forallb (consistentb a) rs) rs.
@@ -139,15 +160,16 @@ Definition hobs_eqb (a b : hobs) : bool :=
   | OGet x, OGet y => optZ_eqb x y
   | OBool x, OBool y => Bool.eqb x y
   | OEntries x, OEntries y => all2 entry_eqb (sort_entries x) (sort_entries y)
-  | OFault, OFault | OBadKey, OBadKey => true
+  | OTypeErr, OTypeErr | OFault, OFault | OBadKey, OBadKey => true
   | _, _ => false
   end.
 Definition ht_agree (c : ht_case) : bool :=
   all2 hobs_eqb (t_run (hc_pool c) [] (hc_ops c)) (hc_obs c) &&
   (* the model's test on the pool is the implementation's *)
   all2 (all2 N.eqb) (map (fun a => map (fun b => b2n (test_fn (hc_test c) a b)) (hc_pool c)) (hc_pool c)) (hc_tobs c).
-(* the guard on which the observed behaviour is JUDGED: keys of the simple kinds, references consistent
-   (one cell one value; nil and t one word each), operations in range.  By simple_pool_ok (Proofs6) such a
+(* the guard on which the observed behaviour is JUDGED: keys of the simple kinds (lists included: the table
+   must refuse them with a type-error), references consistent (one cell one value; nil and t one word each),
+   operations in range.  By simple_pool_ok (Proofs6) such a
    pool satisfies pool_ok for eql, so the unchanged code is a finite map there by table_refines_map. *)
 Definition const_wordsb (a b : ref) : bool :=
   match r_obj a, r_obj b with
